@@ -7,6 +7,7 @@ import (
 	"fmt"
 	"os"
 	"os/exec"
+	"sort"
 	"strings"
 	"time"
 
@@ -588,6 +589,71 @@ func concurrentWaiters(run *ev.Run) {
 					fs = append(fs, fo{e.Found.Sig, e.Found.Detail, []string{fmt.Sprintf("purge race readers=%d %s writer=%s schedule=%v", readers, reader, writer, e.FoundPath)}})
 				}
 			}
+		}
+	}
+	// a large number of expired, untouched records (sweeps with a budget, batches, paging): none of them is served
+	{
+		var problem string
+		const many = 2600
+		scenario := func() {
+			problem = ""
+			be := kvh.NewInmem()
+			s := be.Fresh()
+			ctx := context.Background()
+			now := func() time.Time { return vsched.Epoch0.Add(vsched.NowPeek()) }
+			exp, far := now().Add(short), now().Add(long)
+			for i := 0; i < many; i++ {
+				s.Create(ctx, kvs.Record{Key: fmt.Sprintf("k%04d", i), Value: []byte("x"), ExpiresAt: &exp})
+			}
+			s.Create(ctx, kvs.Record{Key: "keep-long", Value: []byte("x"), ExpiresAt: &far})
+			s.Create(ctx, kvs.Record{Key: "keep-forever", Value: []byte("x")})
+			vsched.Sleep(steps[0])
+			it, err := s.ListKeys(ctx, "*")
+			var got []string
+			if err == nil {
+				for it.HasNext() {
+					k, _ := it.Next()
+					got = append(got, k)
+				}
+				it.Close()
+			}
+			sort.Strings(got)
+			if fmt.Sprint(got) != "[keep-forever keep-long]" {
+				n := len(got)
+				if n > 6 {
+					got = got[:6]
+				}
+				problem = fmt.Sprintf("%d records expired and untouched, 2 alive: ListKeys(*) as the first touch returned %d keys (%v ...), expected [keep-forever keep-long]", many, n, got)
+			}
+			for i := 0; i < many && problem == ""; i += 97 {
+				if _, err := s.Get(ctx, fmt.Sprintf("k%04d", i)); err == nil {
+					problem = fmt.Sprintf("Get(k%04d) serves an expired record", i)
+				}
+			}
+		}
+		e := &vsched.Explorer{Cfg: vsched.Config{P: 0, Preempt: fine, MaxSteps: 2_000_000}, Scenario: scenario, StopAtFirst: true,
+			Check: func(x *vsched.Exec) (string, *vsched.Violation) {
+				if len(x.Panics) > 0 {
+					return "panic", &vsched.Violation{Sig: "inmem many-expired panic", Detail: x.Panics[0]}
+				}
+				if problem != "" {
+					return "v", &vsched.Violation{Sig: "inmem many-expired", Detail: problem}
+				}
+				if x.Outcome != vsched.Completed {
+					return "v", &vsched.Violation{Sig: "inmem many-expired:" + x.Outcome.String(), Detail: fmt.Sprint(x.Blocked)}
+				}
+				return "ok", nil
+			}}
+		e.Run()
+		if e.InfraErr != "" {
+			b, _ := json.Marshal(map[string]any{"Infra": e.InfraErr})
+			fmt.Println(string(b))
+			return
+		}
+		st.States += int(e.Stats.TreeNodes)
+		st.Transitions += e.Stats.Steps
+		if e.Found != nil {
+			fs = append(fs, fo{e.Found.Sig, e.Found.Detail, []string{"2600 expired records, ListKeys as first touch"}})
 		}
 	}
 	// third family: a waiter that arrives within a few nanoseconds of the expiration instant (the implementation reads
